@@ -108,8 +108,10 @@ func splitmix(x uint64) uint64 {
 
 // qMutation derives one real change for a variant from a seed.
 func (s *Sim) qMutation(v *Variant, seed uint64) *StreamEv {
-	s.W.fresh++
-	nv := prim(fmt.Sprintf("%d", 5000+s.W.fresh))
+	// (a counter of its own: the one of freshVal also advances while decisions
+	// are generated, which a replayed trace does not do)
+	s.W.qfresh++
+	nv := prim(fmt.Sprintf("%d", 5000+s.W.qfresh))
 	if v.Actual.Kind == 'm' {
 		k := propKeys[seed%uint64(len(propKeys))]
 		if old, has := v.Actual.Model[k]; has && (seed>>8)%3 == 0 {
